@@ -84,7 +84,10 @@ fn capacity_asserts_at<const N: usize>() {
     let bytes: [u8; N] = kani::any();
     let data = match Data::try_new(&bytes[..]) {
         Ok(d) => d,
-        Err(_) => panic!("try_new rejected a short block"),
+        Err(e) => {
+            core::mem::forget(e); // never drop an error value in a harness: its drop glue drags in every dyn Error
+            panic!("try_new rejected a short block")
+        }
     };
     let f = Frame::new(Address(addr), MsgType(ty), data);
     let out = f.to_bytes_with_newline();
